@@ -344,7 +344,78 @@ def evaluate(case, env):
         core.rmtree(top)
     if not out.violations:
         _evaluate_multiproject(case, env, out)
+    if not out.violations:
+        _evaluate_symlink_and_own_module(case, env, out)
     return out
+
+
+def _evaluate_symlink_and_own_module(case, env, out):
+    """(1) a symlink inside the project that points outside the root is never a project resource, whatever the
+    ignored_resources preference says: refactorings must not write through it; (2) moving a global of a package's
+    __init__.py "to" that very package is a request that cannot be honoured and must be refused"""
+    from rope.base import exceptions as rex
+    from rope.base.project import Project
+    from rope.refactor import move
+    from rope.refactor.rename import Rename
+
+    variant = case["restrict"] % 3
+    top = core.fresh_dir("c09s")
+    root, outside = os.path.join(top, "proj"), os.path.join(top, "elsewhere")
+    files = {"a.py": "shared = 1\ndef use():\n    return shared\n", "pkg/__init__.py": "class Config:\n    level = 1\nDEFAULT = Config()\n", "b.py": "import pkg\nprint(pkg.Config.level)\n"}
+    fsmodel.write_tree(root, files)
+    fsmodel.write_tree(outside, {"hooks.py": "from a import shared\nprint(shared)\n", "plugins/plug.py": "import a\nprint(a.shared)\n"})
+    os.symlink(os.path.join(outside, "hooks.py"), os.path.join(root, "hooks.py"))
+    os.symlink(os.path.join(outside, "plugins"), os.path.join(root, "plugins"))
+    kw = [{}, {"ignored_resources": []}, {"ignored_resources": ["*.pyc"]}][variant]
+    project = Project(root, ropefolder=None, **kw)
+    sub = {"kind": "symlink", "ignored_resources": kw.get("ignored_resources", "default")}
+    try:
+        before = fsmodel.snapshot(outside)
+        out.evals += 1
+        out.labels["symlink_scenario:variant%d" % variant] += 1
+        listed = sorted(r.path for r in project.get_files())
+        if any(p.startswith("hooks") or p.startswith("plugins") for p in listed):
+            out.violation("C09:symlink_to_outside_listed_as_project_file", "get_files() = %s with %s" % (listed, sub), sub)
+            return
+        try:
+            changes = Rename(project, project.get_file("a.py"), 0).get_changes("zz_fresh")
+            bad = [r.path for r in changes.get_changed_resources() if os.path.islink(r.real_path) or not os.path.realpath(r.real_path).startswith(os.path.realpath(root) + os.sep)]
+            if bad:
+                out.violation("C09:change_announces_resource_outside_root_through_symlink", "%s with %s" % (bad, sub), sub)
+                return
+            project.do(changes)
+        except rex.RopeError:
+            out.refused += 1
+        if fsmodel.snapshot(outside) != before:
+            out.violation("C09:wrote_outside_root_through_symlink", "%s" % (sub,), sub)
+            return
+        # (2)
+        out.evals += 1
+        snap = fsmodel.snapshot(root)
+        for dest in (project.get_folder("pkg"), "pkg"):
+            try:
+                res = project.get_file("pkg/__init__.py")
+                ch_ = move.create_move(project, res, res.read().index("Config")).get_changes(dest)
+            except rex.RopeError:
+                out.refused += 1
+                continue
+            except Exception as e:
+                etype, site = _site(e)
+                key = "site:move_global_own_module:%s:%s" % (etype, site)
+                if env.known(key):
+                    out.excluded[key] += 1
+                else:
+                    out.violation("C09:internal_error:move_global_own_module:%s:%s" % (etype, site), repr(e), sub)
+                continue
+            out.violation("C09:unhonourable_request_accepted:move_global_to_its_own_module", "destination %r: a change set was returned: %s" % (dest if isinstance(dest, str) else dest.path, ch_.get_description()[:300]), sub)
+            return
+        if fsmodel.snapshot(root) != snap:
+            out.violation("C09:refusal_touched_disk:move_global_own_module", "", sub)
+            return
+        out.nontrivial.add(("symlink", variant))
+    finally:
+        project.close()
+        core.rmtree(top)
 
 
 def _evaluate_multiproject(case, env, out):
